@@ -135,6 +135,38 @@ variable {K : Type} [Field K] [LinearOrder K] [IsStrictOrderedRing K]
 theorem absG_eq_abs (t : K) : absG t = |t| := by
   simp [absG, abs_eq_max_neg]
 
+/-! ### the formula leaves unfolded (regenerated from the source each run) -/
+
+open Rsa.Gen.C06 in
+theorem pTwo_def (F : K → K) (t : K) : pTwo F t = 2 * (1 - F (absG t)) := by
+  simp [pTwo, pTwoSidedPair]
+
+open Rsa.Gen.C06 in
+theorem pTwoNc_def (F : K → K) (t : K) : pTwoNc F t = 2 * (1 - F (absG t)) := by
+  simp [pTwoNc, pTwoSidedNc]
+
+open Rsa.Gen.C06 in
+theorem pOne_def (F : K → K) (t : K) : pOne F t = 1 - F t := by
+  simp [pOne, pOneSided]
+
+theorem tStat_def [HasSqrt K] (eps eff var : K) :
+    tStat eps eff var = eff / HasSqrt.sqrt (max var eps) := rfl
+
+theorem tStatPair_def [HasSqrt K] (eps eff var : K) : tStatPair eps eff var = tStat eps eff var := rfl
+
+theorem tStatNc_def [HasSqrt K] (eps eff c var : K) :
+    tStatNc eps eff c var = tStat eps (eff - c) var := rfl
+
+open Rsa.Gen.C06 in
+theorem bootPairP_def (N lt eq : Nat) :
+    bootPairP (α := K) N lt eq
+      = ((N : K) - 1) / N * (min ((lt : K) / ((N : K) - eq)) (1 - (lt : K) / ((N : K) - eq)) * 2) + 1 / N := by
+  simp [bootPairP, bootShrink, bootTwoSided, bootProp]
+
+open Rsa.Gen.C06 in
+theorem bootZeroSingle_def (c n : K) : bootZeroSingle c n = min ((c + 1) / n) 1 := by
+  simp [bootZeroSingle]
+
 end order
 
 theorem vecToMat_symm {β : Type} (n : Nat) (d z : β) (v : List β) (i j : Nat) :
